@@ -115,7 +115,7 @@ class C16(Check):
         # independent specification: substitute sequentially; interface by the prescribed rule
         ins, outs, a, g = list(c["ins"]), list(c["outs"]), list(c["a"]), list(c["g"])
         reject = False
-        states = []      # (assumptions, guarantees) after every substitution performed before a rejection
+        states = [(a, g)]      # (assumptions, guarantees) of the operand and after every substitution performed before a rejection
         for s, d in maps:
             if s == d or (s not in ins and s not in outs):
                 continue
